@@ -1120,6 +1120,40 @@ def rcu_writer_guard(ctx, rid, floor=20, loads=True):
             pos = f.pos_of(op["st"])
             ok = pos is not None and la.holds(pos, "this.m_write_mutex", "X")
             why = "write mutex not held here"
+            if not ok and op["op"] == "load":
+                # a link sampled before the mutex is harmless as long as it only travels into the result; it must not feed
+                # the re-linking (the value or the object of a later store)
+                var = None
+                par = f.par(op["st"])
+                while par is not None and par["k"] != "DeclStmt":
+                    par = f.par(par)
+                if par is not None:
+                    for d in par["decls"]:
+                        if d.get("init") and any(x["id"] == op["st"]["id"] for x in f.descendants(f.s(d["init"]))):
+                            var = d["id"]
+                feeds = False
+                if var is not None:
+                    vs = {var}
+                    grown = True
+                    while grown:        # copies of the sampled value
+                        grown = False
+                        for s2 in f.stmts.values():
+                            if s2["k"] == "DeclStmt":
+                                for d2 in s2["decls"]:
+                                    if d2["id"] not in vs and d2.get("init") and any(
+                                            x["k"] == "DeclRefExpr" and x["d"].get("id") in vs for x in f.descendants(f.s(d2["init"]))):
+                                        vs.add(d2["id"])
+                                        grown = True
+                    for o2 in atomic_ops(f):
+                        if o2["op"] not in ("store", "rmw", "cas"):
+                            continue
+                        for sub_ in ([o2.get("value")] if o2.get("value") is not None else []) + [f.s(o2["st"].get("obj"))]:
+                            if sub_ is not None and any(x["k"] == "DeclRefExpr" and x["d"].get("id") in vs for x in f.descendants(sub_)):
+                                feeds = True
+                else:
+                    feeds = True
+                if not feeds:
+                    ok = True
             if not ok and f.access != "public":
                 # a non-public linking helper inherits the lock from its callers: every call site must hold it
                 from .guards import _callers_hold
